@@ -46,7 +46,7 @@ func runC02(c *Ctx) {
 		return
 	}
 	elemSym := ""
-	for b := range loop.Blocks {
+	for _, b := range sortedBlocks(loop.Blocks) {
 		for _, in := range b.Instrs {
 			if u, ok := in.(*ssa.UnOp); ok && u.Op == token.MUL {
 				if ia, ok := u.X.(*ssa.IndexAddr); ok && ia.X == ssa.Value(attrsP) {
@@ -64,7 +64,7 @@ func runC02(c *Ctx) {
 	// isDataAttribute(key)
 	var dataF *pa.F = pa.False
 	ida := c.P.Func(load.ModPath, "isDataAttribute")
-	for b := range loop.Blocks {
+	for _, b := range sortedBlocks(loop.Blocks) {
 		for _, in := range b.Instrs {
 			if cl, ok := in.(*ssa.Call); ok && ida != nil && cl.Common().StaticCallee() == ida && A.Sym.Of(cl.Common().Args[0]) == keySym {
 				dataF = A.Cond(cl)
@@ -125,7 +125,7 @@ func runC02(c *Ctx) {
 	q.Barrier[loop.Header] = true
 	q.Run(loop.Body, nil)
 	nApp := map[string]int{}
-	for b := range loop.Blocks {
+	for _, b := range sortedBlocks(loop.Blocks) {
 		for _, in := range b.Instrs {
 			cl, ok := in.(*ssa.Call)
 			if !ok {
@@ -172,7 +172,7 @@ func runC02(c *Ctx) {
 	// R2
 	vu := c.P.Func(load.ModPath, "(*Policy).validURL")
 	bad := 0
-	for b := range loop.Blocks {
+	for _, b := range sortedBlocks(loop.Blocks) {
 		for _, in := range b.Instrs {
 			switch x := in.(type) {
 			case *ssa.Call:
